@@ -37,6 +37,7 @@ import (
 	"fmt"
 	"os"
 	"path/filepath"
+	"sync/atomic"
 	"testing/synctest"
 	"time"
 
@@ -162,6 +163,33 @@ type Rig struct {
 	Parked    []oid.Address
 	ParkedNow bool
 	resumed   bool
+
+	// noSpace: blob Put/PutBatch fail with common.ErrNoSpace (injected full disk)
+	noSpace atomic.Bool
+}
+
+// SetNoSpace switches the injected "no space left" failure of blob writes.
+func (r *Rig) SetNoSpace(on bool) { r.noSpace.Store(on) }
+
+// BlobHas reports which of addrs are stored in the blob storage of shard directory dir.
+func BlobHas(dir string, addrs []oid.Address) (map[oid.Address]bool, error) {
+	fst := stor.FSTree(stor.BlobDir(dir))
+	if err := fst.Open(true); err != nil {
+		return nil, err
+	}
+	defer fst.Close()
+	if err := fst.Init(common.ID{}); err != nil {
+		return nil, err
+	}
+	res := map[oid.Address]bool{}
+	for _, a := range addrs {
+		ok, err := fst.Exists(a)
+		if err != nil {
+			return nil, err
+		}
+		res[a] = ok
+	}
+	return res, nil
 }
 
 // Dir returns the live shard directory.
@@ -187,6 +215,12 @@ func (r *Rig) shardCfg(dir string, ep *stor.Epoch, blob common.Storage) stor.Sha
 
 func (r *Rig) open() error {
 	fs := faultstore.New(stor.FSTree(stor.BlobDir(r.Dir())))
+	fs.Fail = func(m string, _ []oid.Address) error {
+		if (m == "Put" || m == "PutBatch") && r.noSpace.Load() {
+			return common.ErrNoSpace
+		}
+		return nil
+	}
 	fs.Before = func(m string, a []oid.Address) { r.before("blob", m, a) }
 	fs.After = func(m string, a []oid.Address, err error) { r.after("blob", m, a, err) }
 	sh, err := stor.OpenShard(r.shardCfg(r.Dir(), r.Epoch, fs))
